@@ -517,9 +517,18 @@ func (x *run) checkC12(failing map[int]bool) *Failure {
 				return fail("C12", "reports", "not-disposal-error", "%s returned %T (%v), not a DisposalError", what, g.firstErr, firstLine(g.firstErr))
 			}
 			if g.errs > 0 && !anyFail {
-				// a close started by a context watcher just before this call may still be in
-				// progress; the owner waits for it and reports its failures too
+				// a close started by a context watcher (or by another goroutine) just before this call may
+				// still be in progress; the owner waits for it and reports its failures too, and such waits
+				// can chain. With concurrency in the history an error is therefore only called spurious when
+				// no failing Close of the call's subtree has run at all.
 				wide := false
+				if x.Concurrent {
+					for _, e := range x.closesIn(0, g.to) {
+						if failing[e.Serial] && (g.kind == "pclose" || x.M.Regs[e.Reg].Life == kit.Singleton || x.subtreeOf(g.scope)[e.ScopeTag]) {
+							wide = true
+						}
+					}
+				}
 				for _, co := range obs {
 					// a cancel before this call, or an explicit Close still in progress when it started
 					inProgress := co.Kind == "close" && co.StartSeq < g.from && co.EndSeq > g.from
@@ -539,7 +548,24 @@ func (x *run) checkC12(failing map[int]bool) *Failure {
 					return fail("C12", "reports", "spurious", "%s returned %v although no Close method failed", what, firstLine(g.firstErr))
 				}
 			}
-			if g.errs == 0 && anyFail && !byCancel {
+			// failing instances of a scope whose context (or an ancestor's) was cancelled may have been closed by
+			// that scope's watcher goroutine, which swallows the error: they do not oblige this call to report
+			anyFailOwn := false
+			for _, e := range closed {
+				if !failing[e.Serial] {
+					continue
+				}
+				viaWatcher := false
+				for _, a := range x.R.Ancestors(e.ScopeTag) {
+					if cancelled[a] {
+						viaWatcher = true
+					}
+				}
+				if !viaWatcher {
+					anyFailOwn = true
+				}
+			}
+			if g.errs == 0 && anyFailOwn && !byCancel {
 				depth := "own"
 				for _, e := range closed {
 					if failing[e.Serial] && e.ScopeTag != g.scope && g.kind == "close" {
